@@ -12,8 +12,11 @@ plugin's on_event_in_process for every event, then on_end_run) on
   * streams recorded from real runs of nextline.spawned.main (harness/child.py),
   * a few corrupted streams (the model must also agree there, including "raised"),
 each truncated at every prefix length (generated) / at sampled prefix lengths (recorded)
-to model a kill, with real subscribers attached at random points and the event loop
-yielded a random number of times between events.  Everything the broker receives is
+to model a kill, with real subscribers attached at random points -- the subscribe CALL
+(`pubsub.subscribe(key, last=...)`, the call Nextline makes) at one random point and the
+consumer's FIRST iteration step at the same or a random later point, including after the
+per-trace end and after on_end_run -- and the event loop yielded a random number of times
+between events.  Everything the broker receives is
 recorded per topic and compared with the model inside Coq (cases.v + vm_compute).
 Oracle: `oracle_run`, a direct statement of the property text on the recorded
 publications, on `pubsub.latest('trace_nos')` after every event, and on the termination
@@ -45,7 +48,8 @@ ASSUMPTIONS = [
     'the registrars publish on pairwise disjoint topics (Registrars/Order.v, from the generated table), so gather order is '
     'irrelevant per topic; publications are compared per topic',
     'a subscriber "attached while the stream was live": prompt_notice -- between on_initialize_run and on_end_run; '
-    'prompt_info_<n> -- after OnStartTrace n was relayed and before the topic was ended',
+    'prompt_info_<n> -- after OnStartTrace n was relayed and before the topic was ended; "attached" = the subscribe() call '
+    '(not the first iteration step, which may come arbitrarily later)',
 ]
 
 
@@ -183,10 +187,20 @@ def _recording_pubsub():
 
 
 class Subscriber:
-    def __init__(self, pubsub, key, last, at, live):
-        self.key, self.last, self.at, self.live = key, last, at, live
+    """`attach`: the subscribe CALL, exactly as Nextline makes it (`pubsub.subscribe(key, last=...)`),
+    at position `at`; `start`: the consumer task, i.e. the FIRST iteration step, at position
+    `start_at` >= `at` (len(events) = after on_end_run).  A subscriber is attached, in the
+    property's sense, from the call on."""
+
+    def __init__(self, pubsub, key, last, at, live, start_at):
+        self.key, self.last, self.at, self.live, self.start_at = key, last, at, live, start_at
         self.got = []
-        self.task = asyncio.ensure_future(self._run(pubsub.subscribe(key, last=last)))
+        self.agen = pubsub.subscribe(key, last=last)
+        self.task = None
+
+    def start(self):
+        if self.task is None:
+            self.task = asyncio.ensure_future(self._run(self.agen))
 
     async def _run(self, agen):
         async for v in agen:
@@ -194,8 +208,8 @@ class Subscriber:
 
 
 async def drive(run_no: int, events: list[dict], plan: dict) -> dict:
-    """plan: {'subs': {position: [(key_kind, last)]}, 'yields': {position: n}}; position -1 = before the
-    first event, i = after event i."""
+    """plan: {'subs': {position: [(key_kind, last, start_position)]}, 'yields': {position: n}}; position -1 =
+    before the first event, i = after event i, len(events) = after on_end_run (start_position only)."""
     from nextline.plugin import Context, build_hook
     from nextline import events as E
     from nextline.types import InitOptions
@@ -220,15 +234,23 @@ async def drive(run_no: int, events: list[dict], plan: dict) -> dict:
     latest_after = []             # pubsub.latest('trace_nos') after each event (None = nothing published yet)
 
     def attach(pos):
-        for kind, last in plan.get('subs', {}).get(pos, []):
+        for entry in plan.get('subs', {}).get(pos, []):
+            kind, last = entry[0], entry[1]
+            start_at = entry[2] if len(entry) > 2 else pos
             if kind == 'notice':
-                subs.append(Subscriber(pubsub, 'prompt_notice', last, pos, True))
+                subs.append(Subscriber(pubsub, 'prompt_notice', last, pos, True, start_at))
             elif kind == 'nos':
-                subs.append(Subscriber(pubsub, 'trace_nos', last, pos, False))
+                subs.append(Subscriber(pubsub, 'trace_nos', last, pos, False, start_at))
             elif kind == 'info':
-                subs.append(Subscriber(pubsub, 'trace_info', last, pos, False))
-            elif isinstance(kind, list) and kind[0] == 'for':
-                subs.append(Subscriber(pubsub, f'prompt_info_{kind[1]}', last, pos, kind[1] in live_for))
+                subs.append(Subscriber(pubsub, 'trace_info', last, pos, False, start_at))
+            elif isinstance(kind, (list, tuple)) and kind[0] == 'for':
+                subs.append(Subscriber(pubsub, f'prompt_info_{kind[1]}', last, pos, kind[1] in live_for, start_at))
+        start_due(pos)
+
+    def start_due(pos):
+        for s_ in subs:
+            if s_.task is None and s_.start_at <= pos:
+                s_.start()
 
     async def yields(pos):
         for _ in range(plan.get('yields', {}).get(pos, 0)):
@@ -262,11 +284,13 @@ async def drive(run_no: int, events: list[dict], plan: dict) -> dict:
         final_nos = list(pubsub.latest('trace_nos'))
     except LookupError:
         final_nos = None
-    for _ in range(6):
+    start_due(len(events))          # consumers that take their first step only after the run has ended
+    for _ in range(8):
         await asyncio.sleep(0)
     sub_report = []
     for s in subs:
-        sub_report.append({'key': s.key, 'last': s.last, 'at': s.at, 'live': s.live, 'done': s.task.done(), 'n': len(s.got)})
+        sub_report.append({'key': s.key, 'last': s.last, 'at': s.at, 'start_at': s.start_at, 'live': s.live,
+                           'done': s.task.done(), 'n': len(s.got)})
         if not s.task.done():
             s.task.cancel()
     await asyncio.gather(*[s.task for s in subs], return_exceptions=True)
@@ -437,8 +461,9 @@ def oracle_run(run_no, events, obs) -> list[tuple[str, str]]:
         bad.append(('closed-out-active-set', f'after on_end_run the published trace ids are {obs["final_nos"]}, expected ()'))
     for s in obs['subs']:
         if s['live'] and not s['done']:
-            bad.append(('subscriber-waits-forever', f'a subscriber attached to {s["key"]} (last={s["last"]}) after event {s["at"]}, while the '
-                                                    f'stream was live, is still waiting after on_end_run'))
+            bad.append(('subscriber-waits-forever', f'a subscriber that called subscribe({s["key"]!r}, last={s["last"]}) after event {s["at"]}, while '
+                                                    f'the stream was live, and took its first iteration step at position {s["start_at"]} '
+                                                    f'(events: 0..{len(events) - 1}, {len(events)} = after on_end_run) is still waiting after on_end_run'))
             break
     return bad
 
@@ -453,7 +478,10 @@ def gen_plan(rng, events, p_sub=0.5):
     for _ in range(rng.randint(0, 4) if rng.random() < p_sub else 0):
         pos = rng.randint(-1, n - 1)
         kind = rng.choice(['notice', 'notice', ['for', rng.choice(tnos)], ['for', rng.choice(tnos)], 'nos', 'info'])
-        subs.setdefault(pos, []).append((kind, rng.random() < 0.6))
+        # the first iteration step: at once, at a random later point, or only after on_end_run
+        r = rng.random()
+        start_at = pos if r < 0.4 else (n if r < 0.65 else rng.randint(pos, n))
+        subs.setdefault(pos, []).append((kind, rng.random() < 0.6, start_at))
     for _ in range(rng.randint(0, 3)):
         ys[rng.randint(-1, n - 1)] = rng.randint(1, 3)
     return {'subs': subs, 'yields': ys}
@@ -467,7 +495,7 @@ def _run(ctx, work, corr: Corr):
     terms = []
     meta = []
     hist = {}
-    nsubs = nlive = 0
+    nsubs = nlive = ndef = nlate = 0
     seen = set()
     try:
         for kind, r, evs, plan, origin in work:
@@ -476,6 +504,8 @@ def _run(ctx, work, corr: Corr):
             hist[kind] = hist.get(kind, 0) + 1
             nsubs += len(obs['subs'])
             nlive += sum(1 for s in obs['subs'] if s['live'])
+            ndef += sum(1 for s in obs['subs'] if s['live'] and s['start_at'] > s['at'])
+            nlate += sum(1 for s in obs['subs'] if s['live'] and _after_end(evs, s))
             key = json.dumps(evs, sort_keys=True, default=str)
             if key not in seen:
                 seen.add(key)
@@ -504,7 +534,18 @@ def _run(ctx, work, corr: Corr):
         for b in bad:
             kind, r, evs, plan, origin = meta[n * CH + b]
             corr.mismatches.append({'kind': f'registrars-model-vs-real:{kind}', 'run_no': r, 'events': c09._brief(evs), 'origin': origin})
-    corr.extra.update({'case_kinds': hist, 'subscribers_attached': nsubs, 'subscribers_attached_while_live': nlive})
+    corr.extra.update({'case_kinds': hist, 'subscribers_attached': nsubs, 'subscribers_attached_while_live': nlive,
+                       'live_subscribers_first_step_deferred': ndef, 'live_subscribers_first_step_after_topic_end_or_run_end': nlate})
+
+
+def _after_end(evs, s):
+    """the first iteration step came after the topic had been ended (per-trace end or run end)"""
+    if s['start_at'] >= len(evs):
+        return True
+    if s['key'].startswith('prompt_info_'):
+        tn = int(s['key'][len('prompt_info_'):])
+        return any(e['type'] == 'OnEndTrace' and e['trace_no'] == tn for e in evs[s['at'] + 1:s['start_at'] + 1])
+    return False
 
 
 def _plan_json(plan):
